@@ -79,6 +79,20 @@ def plan(tier, seed):
                         P.add("delta_subset", inverse=inverse, shape=shape, axes=axes,
                               center=True, norm="ortho", index=idx)
                         nd += 1
+    # histories: the same array shape transformed with several (axes, center, norm) settings
+    # in one process, then the first again (plans / shifts remembered between calls must be
+    # keyed by every parameter)
+    rngh = P.rng("hist")
+    for i in range(60 if tier == "quick" else 1500):
+        ndim = int(pick(rngh, [2, 2, 3]))
+        shape = [int(rngh.integers(2, 8)) for _ in range(ndim)]
+        seq = []
+        for k in range(int(rngh.integers(3, 6))):
+            axes, akind = _axes_variants(rngh, ndim)
+            seq.append({"axes": axes, "center": bool(rngh.random() < 0.5),
+                        "norm": pick(rngh, ["ortho", None]),
+                        "inverse": bool(rngh.random() < 0.5)})
+        P.add("fft_history", shape=shape, seq=seq, dtype=pick(rngh, ["complex128", "complex64"]))
     return P.cases
 
 
@@ -86,8 +100,41 @@ def _parity(shape):
     return "".join("1" if s == 1 else "o" if s % 2 else "e" for s in shape)
 
 
+def run_history(case):
+    import sigpy as sp
+    rng = rng_for(case)
+    shape = tuple(case["shape"])
+    dtype = np.dtype(case["dtype"])
+    x = crandn(rng, shape, dtype)
+    tol = 1e-10 if dtype == np.complex128 else 2e-4
+    sig = "history|%dd|%s" % (len(shape), dtype.name)
+    first = None
+    n = 0
+    for st in case["seq"] + case["seq"][:1]:
+        f = sp.ifft if st["inverse"] else sp.fft
+        y = f(x, axes=st["axes"], center=st["center"], norm=st["norm"])
+        ref = O.dft(x, axes=st["axes"], center=st["center"], inverse=st["inverse"],
+                    norm=st["norm"])
+        e = relerr(y, ref)
+        n += 1
+        if not e <= tol:
+            return violated(sig, "after other (axes, center, norm) settings were used in this "
+                            "process, %s with %s differs from the DFT definition: rel %.3g" % (
+                                "ifft" if st["inverse"] else "fft", st, e),
+                            {"shape": shape, "seq": case["seq"]}, mech="history",
+                            obs={"relerr": e})
+        if first is None:
+            first = y.copy()
+    if not np.array_equal(first, y):
+        return violated(sig, "repeating the first setting gives a different result",
+                        {"shape": shape, "seq": case["seq"]}, mech="history-nondeterministic")
+    return held(sig, {"settings": len(case["seq"])}, n, True)
+
+
 def run_case(case):
     import sigpy as sp
+    if case["gen"] == "fft_history":
+        return run_history(case)
     rng = rng_for(case)
     shape = tuple(case["shape"])
     axes = case["axes"]
